@@ -110,6 +110,10 @@ struct RunOpts {
 };
 
 RunResult run_plan(const Plan &p, const RunOpts &o = RunOpts());
+// the same in a forked child: the library starts every run from the process image of the parent, which never
+// executes a plan itself - needed where the property is about process-wide state (C17): state left behind in the
+// library's globals by one run would otherwise leak into the next run of the worker and make results irreproducible
+RunResult run_plan_isolated(const Plan &p, const RunOpts &o = RunOpts());
 
 // property an oracle id belongs to (attribution rule, DESIGN 2.5)
 const char *oracle_property(const std::string &oracle, const JobSpec *s);
